@@ -217,7 +217,20 @@ func (h *H) doBuild(res *OpResult) {
 	for i, r := range h.cfg.Regs {
 		h.regErrs[i] = h.addReg(c, r)
 	}
-	p, err := c.Build()
+	var p godi.Provider
+	var err error
+	cancellable := false
+	for _, f := range h.faults {
+		if f.Kind == FBuildCancel {
+			cancellable = true
+		}
+	}
+	if cancellable {
+		h.buildCtx = h.newCtx(nil, nil, nil)
+		p, err = c.BuildWithContext(h.buildCtx)
+	} else {
+		p, err = c.Build()
+	}
 	h.setErr(res, err)
 	h.buildErr = err
 	if err != nil {
